@@ -3,7 +3,7 @@
     Congestion/Proofs*.v. The model (Congestion/Model.v) is tied to
     /repo/internal/congestion by the correspondence units "cubic" and "pacer". *)
 From Coq Require Import List ZArith Bool.
-From V Require Import Gen.Params Congestion.Model Congestion.ProofsCut Congestion.ProofsCubic Congestion.ProofsPacer.
+From V Require Import Gen.Params Congestion.Model Congestion.ProofsCut Congestion.ProofsCubic Congestion.ProofsPacer Congestion.ProofsHystart.
 From V Require SentPH.Model SentPH.ProofsAckRules SentPH.ProofsScalars Congestion.ProofsHandler.
 Import ListNotations.
 Open Scope Z_scope.
@@ -330,3 +330,77 @@ Example C20_pacer_nonvacuous :
   Forall pop_ok l /\ sum_auth p l = 3840 /\ time_until_send (prun p [PSent 5 12000 8000000]) 8000000 = Some 1000005.
 Proof. exact pacer_example. Qed.
 Print Assumptions C20_pacer_nonvacuous.
+
+(** ---- Round 4 ---- *)
+
+(** The gate with the sender model's own answers (window, HasPacingBudget = Budget now >= datagram):
+    SendAny implies bytes in flight < cwnd AND the pacer has budget for a datagram (itself at most one
+    burst). The sendmode unit replays the sender model on the call sequence the real handler issues. *)
+Theorem C20_send_gate_sender : forall s now srtt tracked amp probes pto bif,
+  pto <> sm_SendAny ->
+  let hb := budget (pc s) now (bw_est s srtt) >=? mds s in
+  send_mode (G tracked amp probes pto bif (cwnd s) hb) = sm_SendAny ->
+  bif < cwnd s /\ mds s <= budget (pc s) now (bw_est s srtt) /\
+  budget (pc s) now (bw_est s srtt) <= max_burst (pc s) (bw_est s srtt) /\
+  amp = false /\ probes <= 0 /\ tracked < sm_maxOutstandingSentPackets.
+Proof. exact send_gate_sender. Qed.
+Print Assumptions C20_send_gate_sender.
+
+(** SendMode's decision order: amplification limit, tracked cap (none) -> due probe (its PTO mode,
+    whatever window and pacer say) -> window (ack only) -> outstanding cap -> pacer -> any. *)
+Theorem C20_send_mode_order : forall tracked amp probes pto bif cw bud,
+  let m := send_mode (G tracked amp probes pto bif cw bud) in
+  (amp = true -> m = sm_SendNone) /\
+  (amp = false -> sm_maxTrackedSentPackets <= tracked -> m = sm_SendNone) /\
+  (amp = false -> tracked < sm_maxTrackedSentPackets -> 0 < probes -> m = pto) /\
+  (amp = false -> tracked < sm_maxTrackedSentPackets -> probes <= 0 -> cw <= bif -> m = sm_SendAck) /\
+  (amp = false -> tracked < sm_maxOutstandingSentPackets -> probes <= 0 -> bif < cw -> bud = false -> m = sm_SendPacingLimited) /\
+  (amp = false -> tracked < sm_maxOutstandingSentPackets -> probes <= 0 -> bif < cw -> bud = true -> m = sm_SendAny).
+Proof. exact send_mode_order. Qed.
+Print Assumptions C20_send_mode_order.
+
+(** A sustained RTT increase ends slow start: in slow start with >= 16 packets of window, no
+    receive round in progress, eight consecutive RTT samples above minRTT + clamp(minRTT/8, 4ms, 16ms)
+    make MaybeExitSlowStart set ssthresh := cwnd (window untouched). All sample values. *)
+Theorem C20_sustained_rtt_increase_exits : forall s minrtt lats,
+  cwnd s < ssthresh s -> hs_started (hs s) = false -> 0 < mds s -> 16 * mds s <= cwnd s ->
+  0 <= minrtt -> length lats = 8%nat -> Forall (fun l => minrtt + hs_threshold minrtt < l) lats ->
+  let s' := run s (map (fun l => ExitSS l minrtt) lats) in
+  cwnd s' = cwnd s /\ ssthresh s' = cwnd s /\ in_slow_start s' = false.
+Proof. exact sustained_rtt_increase_exits. Qed.
+Print Assumptions C20_sustained_rtt_increase_exits.
+
+Example C20_sustained_increase_nonvacuous :
+  let s := new_sender 1280 true 100000000 in
+  cwnd s < ssthresh s /\ hs_started (hs s) = false /\ 16 * mds s <= cwnd s /\
+  hs_threshold 20000000 = 4000000 /\ hs_threshold 64000000 = 8000000 /\ hs_threshold 400000000 = 16000000.
+Proof. exact sustained_increase_example. Qed.
+Print Assumptions C20_sustained_increase_nonvacuous.
+
+(** The window arithmetic stays inside int64: under the proved bounds (MaxCongestionWindowPackets from
+    the build) and datagram sizes below 2^40, everything the code computes from the window is in [0, 2^63). *)
+Theorem C20_cwnd_no_int64_wrap : forall s, InvC s -> mds s < 2^40 ->
+  0 <= cwnd s /\ cwnd s + mds s < 2^63 /\ 0 <= max_cwnd s < 2^63 /\ 0 <= min_cwnd s < 2^63 /\
+  0 <= reno_cut (cwnd s) <= cwnd s /\ cc_maxCongestionWindowPackets * mds s + mds s < 2^63.
+Proof. exact cwnd_no_int64_wrap. Qed.
+Print Assumptions C20_cwnd_no_int64_wrap.
+
+(** The connection's send path (connection.go triggerSending / sendPackets / sendPacketsWithoutGSO /
+    resetPacingDeadline; model tied by unit "paceglue" on a constructed Conn with the real handler):
+    for every stream of SendMode answers, the packets released by one triggerSending number at most
+    the "any" answers (each packet is licensed by an answer asked right before it) and at most the data
+    available; and a pacing-limited first answer sends nothing and arms the pacing deadline (never 0). *)
+Theorem C20_trigger_sending_gated : forall avail hr modes tus,
+  let r := trigger_sending avail hr modes tus in
+  pr_sent r <= count_any modes /\ pr_sent r <= Z.max avail 0 /\
+  (pr_deadline r = 0 \/ pr_deadline r = pg_deadlineSendImmediately \/ pr_deadline r = pace_deadline tus) /\
+  (forall rest, modes = sm_SendPacingLimited :: rest -> pr_sent r = 0 /\ pr_deadline r = pace_deadline tus /\ pr_deadline r <> 0).
+Proof. exact trigger_sending_gated. Qed.
+Print Assumptions C20_trigger_sending_gated.
+
+Example C20_trigger_sending_nonvacuous :
+  let r := trigger_sending 40 false [6;6;6;6;6;6;6;6;6;6;5] 541066375 in
+  pr_sent r = 10 /\ pr_deadline r = 541066375 /\ pr_rest r = [] /\
+  pr_sent (trigger_sending 3 true [6;6] (-1)) = 1 /\ pr_deadline (trigger_sending 3 true [6;6] (-1)) = pg_deadlineSendImmediately.
+Proof. exact trigger_sending_example. Qed.
+Print Assumptions C20_trigger_sending_nonvacuous.
